@@ -180,7 +180,12 @@ def h_multi(ctx):
     if len(token.get("recipients", [])) != n:
         vs.append(viol(f"recipient count changed: {tag}", ctxs))
     ks = KeySet(privs)
-    d = scen.jwe_decrypt(token, ks, algs, sender_key=A.jkey(sender_jwk, "dict", private=False) if has_1pu else None)
+    # the recipient's keys as a key set, as a callable that is asked per recipient and answers with that recipient's key, or as a
+    # callable that answers with the set
+    held = ctx.deviate("keys_given_as", ["key-set", "callable-per-recipient", "callable-returning-the-set"])
+    by_kid = {f"r{j}": k for j, k in enumerate(privs)}
+    dkey = ks if held == "key-set" else ((lambda obj: by_kid[obj.headers()["kid"]]) if held == "callable-per-recipient" else (lambda obj: ks))
+    d = scen.jwe_decrypt(token, dkey, algs, sender_key=A.jkey(sender_jwk, "dict", private=False) if has_1pu else None)
     if not d.ok:
         vs.append(viol(f"own output does not decrypt: {tag}", f"{ctxs}: {d.exc!r}"))
     else:
@@ -200,7 +205,7 @@ def h_multi(ctx):
                 vs.append(viol(f"reference decrypts to a different plaintext: {tag}", f"{ctxs} recipient {j}"))
         except RefError as e:
             vs.append(viol(f"independent implementation cannot decrypt for one recipient: {tag}", f"{ctxs} recipient {j} ({MIX_KINDS[mix[j]][0]}): {e!r}"))
-    return Outcome(f"{'ok' if not vs else 'bad'}:multi{n}", vs, nontrivial=("multi", mix, enc, aad, zipv))
+    return Outcome(f"{'ok' if not vs else 'bad'}:multi{n}", vs, nontrivial=("multi", mix, enc, aad, zipv, held))
 
 
 def h_forbidden(ctx):
